@@ -42,7 +42,9 @@ USER_HOOKS = {"parsed"}   # Construct.parsed: documented user hook ("parsed hook
 EXTERNAL_RAISERS = {
     ("struct", "unpack"): ("struct.error",), ("struct", "calcsize"): ("struct.error",),
     ("struct", "pack"): ("struct.error", "OverflowError"),      # "float too large to pack with e/f format" is an OverflowError
+    ("binascii", "hexlify"): ("TypeError",), ("binascii", "unhexlify"): ("TypeError", "binascii.Error"),   # a bytes-like object is required
 }
+BYTES_ONLY = {("binascii", "hexlify")}       # raise TypeError exactly for arguments that are not bytes-like: a dominating isinstance(arg, bytes) test discharges them
 METHOD_RAISERS = {"decode": "UnicodeError", "encode": "UnicodeError", "to_bytes": "OverflowError"}
 
 
@@ -209,6 +211,15 @@ def check_foreign(ctx, fi, self_cls, esc, rule="C06.R3"):
             cls = raiser_classes(e, esc)
             if not cls:
                 continue
+            f0 = e["func"]
+            if f0[0] == "attr" and f0[1][0] in ("module", "free") and (f0[1][1], f0[2]) in BYTES_ONLY and e["args"]:
+                isb = ("call", ("free", "isinstance"), (e["args"][0], ("free", "bytes")), ())
+                conds = list(p.guards(e)) + ([e.under] if e.under is not None else [])
+                flat = []
+                for c in conds:
+                    flat.extend(c[2] if c[0] == "bool" and c[1] == "and" else (c,))
+                if isb in flat:
+                    continue        # only ever called on bytes
             k = id(e.node)
             if cls == "opaque":
                 ok = bool(carrier)
